@@ -289,6 +289,18 @@ pub fn history_programs() -> &'static Vec<String> {
         v.push(".macro again\nnop\nagain\n.endm\nagain\n".to_string()); // macro nesting limit
         v.push(format!("ldi r16, 1{}\n", "+1".repeat(700))); // line complexity limit
         v.push(".device ATtiny13\n.org 0x1ff\nnop\nnop\n".to_string()); // capacity
+        // the budget of evaluation steps of a whole build runs out in the middle of an expression over names that
+        // the monitors' own programs use too (all of them worked out at length here, with other values)
+        v.push({
+            let mut s = equ_ladder(13, "");
+            for (k, name) in ["eq_chain", "eq_fwd", "eqa", "eq_b", "eqbig", "xval", "zero_ish", "yes", "lowest", "width", "size", "where", "s0", "s1", "s2", "s3"].iter().enumerate() {
+                s.push_str(&format!(".equ {} = a13 - a13 + {}\n", name, 4242 + k));
+            }
+            for _ in 0..40 {
+                s.push_str(".dd eq_chain + eq_fwd + eqa + eq_b + eqbig + xval + zero_ish + yes\n.dd lowest + width + size + where + s0 + s1 + s2 + s3\n");
+            }
+            s
+        });
         v
     })
 }
@@ -354,7 +366,7 @@ fn hostile_history() {
     let len = history_programs().len();
     let mut idx = k % len;
     // the two long evaluations cost about a million steps each: every fourth time their turn comes
-    if (idx == HISTORY_PROGRAMS_PLAIN.len() || idx == HISTORY_PROGRAMS_PLAIN.len() + 1) && (k / len) % 4 != 0 {
+    if (idx == HISTORY_PROGRAMS_PLAIN.len() || idx == HISTORY_PROGRAMS_PLAIN.len() + 1 || idx == len - 1) && (k / len) % 4 != 0 {
         idx = (idx + 2) % len;
     }
     run_history_program(idx);
